@@ -174,19 +174,19 @@ Definition qsum (l : list Q) : Q := fold_right (fun x acc => Qred (x + acc)) 0 l
 (* ---------------------------------------------------------------- the source's tables, interpreted
    harness/translate_billing_agg.py reads, with `ast`, from BillingModel.predict / BillingWeightedModel.predict
      * the if/elif chain on `aggregation` (which test, on what literal, which resample rule it selects, what the else raises)
-     * the block under `if agg is not None:` (which column of df_res is reduced by which function, in the order of the
-       pd.concat list; `observed` guarded by `"observed" in df_res.columns`)
+     * the block under `if agg is not None:` (which column of df_res is reduced by which function, of the pd.concat list; `observed` guarded by `"observed" in df_res.columns`)
    and writes them to Generated/BillingAggGen.v as values of the types below.  The interpreters below give those tables
    a meaning; Proofs/BillingAggGenProofs.v proves that the tables of the source are the model's tables and hence that the
    interpreted source tables compute exactly [parse_arg] and [aggregate], for every argument and every frame. *)
 Inductive aggfn := FSum | FMean | FFirst | FRss | FOther.
-(* (column of df_res, reducer, aggregated only when the column is present) in the order of the returned columns *)
+(* (column of df_res, reducer, aggregated only when the column is present), sorted by column name: the order in which
+   the columns are returned is not part of the property; columns other than these nine are outside the model *)
 Definition agg_table := list (string * aggfn * bool).
 
 Definition model_agg_table : agg_table :=
-  [ ("season", FFirst, false); ("temperature", FMean, false); ("observed", FSum, true); ("predicted", FSum, false);
-    ("predicted_unc", FRss, false); ("heating_load", FSum, false); ("cooling_load", FSum, false);
-    ("model_split", FFirst, false); ("model_type", FFirst, false) ]%string.
+  [ ("cooling_load", FSum, false); ("heating_load", FSum, false); ("model_split", FFirst, false);
+    ("model_type", FFirst, false); ("observed", FSum, true); ("predicted", FSum, false);
+    ("predicted_unc", FRss, false); ("season", FFirst, false); ("temperature", FMean, false) ]%string.
 
 Definition table_fn (t : agg_table) (c : string) : option aggfn :=
   match find (fun e => String.eqb (fst (fst e)) c) t with Some e => Some (snd (fst e)) | None => None end.
